@@ -4,14 +4,15 @@ from harness.core import coq, Raw, guarded
 from harness import posetlib as PL
 
 ID = 'C09'
-COQ_IMPORTS = ['FCA.Corr.C09']
-CASE_TYPE = 'c09_case'
+COQ_IMPORTS = ['FCA.Corr.C09Any']
+CASE_TYPE = 'c09_any'
 COQ_HEADER = 'Set Printing Width 1000000.\n'   # Coq wraps long result lists; core's pair regex does not survive a wrap
-CHECK = 'c09_check'
-SHOW = 'c09_show'
+CHECK = 'c09_any_check'
+SHOW = 'c09_any_show'
 SHARD = 200
 EMPTY_RAW = '(Build_raw_caches [] [] [] [] [])'
-RULE = ('case = (relation matrix of a generated partial order on <= 8 carriers, initial element list, '
+RULE = ('POSet histories and histories on UpperSemiLattice / LowerSemiLattice / Lattice objects (judged as in C11, '
+        'refusals predicted from the cache-free meaning).  case = (relation matrix of a generated partial order on <= 8 carriers, initial element list, '
         'cache flag, optional true children_dict, history of public POSet calls); after every call the '
         'output is compared with the model and with the cache-free spec, then every query on the final '
         'state and the element list; non-trivial = at least one mutation with an order query before and '
@@ -28,6 +29,10 @@ EXHAUSTIVE = {'thorough': 'over the 5-carrier universe {{},{0},{1},{0,1}} + one 
 
 # ------------------------------------------------------------------ implementation
 def run_impl(case):
+    if case.get('sl'):            # a history on an UpperSemiLattice / LowerSemiLattice / Lattice object
+        from harness.props import c11
+        return c11.run_impl(case)
+
     def go():
         from fcapy.poset import POSet
         m = case['matrix']
@@ -67,6 +72,13 @@ def _xops_term(case):
 
 
 def to_coq(case, out):
+    if case.get('sl'):
+        from harness.props import c11
+        return '(SCase (%s))' % c11.to_coq(case, out)
+    return '(PCase (%s))' % _to_coq_poset(case, out)
+
+
+def _to_coq_poset(case, out):
     m = case['matrix']
     cd = None
     if case.get('cd'):
@@ -227,27 +239,97 @@ def sample_exhaustive(rng, count):
     return out
 
 
+def sl_case(rng, max_ops):
+    """A history on a semilattice-class object (they are poset objects too): top / bottom anywhere
+    in the listing, re-adds of present elements including the current top / bottom, inserts that
+    create a new top / bottom, lazy and eager adds, deletes by index and removes by value, the
+    refusals the classes promise; judged by the model with the cached top / bottom index
+    (Model/PosetLattice.v) and by the cache-free meaning (refusals predicted from the spec)."""
+    from harness.props import c11
+    kind = rng.choice(['U', 'L', 'B', 'B'])
+    for _ in range(100):
+        m, okind = PL.order_bounded(rng, rng.randint(3, 8)) if rng.random() < 0.7 else PL.random_order(rng)
+        k = len(m)
+        init = rng.sample(range(k), rng.randint(1, k))
+        if okind == 'bounded':
+            init = [x for x in init if x > 1]
+            for e in (0, 1):                       # least / greatest carrier, anywhere in the listing
+                if rng.random() < 0.6:
+                    init.insert(rng.randint(0, len(init)), e)
+        if c11.ctor_ok(m, kind, init):
+            break
+    else:
+        m, okind, init = [[True]], 'chain', [0]
+    k = len(m)
+    cache = rng.random() < 0.8
+    cur, ops = list(init), []
+
+    def do(o):
+        nonlocal cur
+        ops.append(o)
+        cur = list(c11.sim(m, kind, cur, o)[0])
+    n_ops = rng.randint(3, max_ops)
+    while len(ops) < n_ops:
+        ext = [cur[c11.extremes(m, cur, up)[0]] for up in (True, False) if c11.has_ext(kind, up)]
+        absent = [x for x in range(k) if x not in cur]
+        beyond = [e for e in absent if any((m[t][e] or m[e][t]) and not c11.sim(m, kind, cur, ['add', e, True])[1]
+                                           and c11.extremes(m, cur + [e], True) + c11.extremes(m, cur + [e], False)
+                                           != c11.extremes(m, cur, True) + c11.extremes(m, cur, False) for t in ext)]
+        r = rng.random()
+        fill = rng.random() < 0.6
+        if r < 0.15:
+            do(['add', rng.choice(ext), fill])                     # re-add of the current top / bottom
+        elif r < 0.22:
+            do(['add', rng.choice(cur), fill])                     # re-add of any present element
+        elif r < 0.42 and beyond:
+            do(['add', rng.choice(beyond), fill])                  # becomes the new top / bottom
+        elif r < 0.60 and absent:
+            do(['add', rng.choice(absent), fill])                  # accepted or refused, as the order says
+        elif r < 0.75:
+            do(['del', rng.randrange(len(cur))])                   # any index: the extremes are refused
+        elif r < 0.93:
+            do(['rm', rng.choice(cur)])
+        elif absent:
+            do(['rm', rng.choice(absent)])
+        ops.extend(c11.sl_queries(rng, kind, len(cur), cur, k)[:rng.randint(0, 2)])
+        if rng.random() < 0.5:
+            ops.append(rng.choice([['top']] * c11.has_ext(kind, True) + [['bot']] * c11.has_ext(kind, False) +
+                                  [['ex', True], ['ex', False]]))
+    return {'matrix': m, 'kind': kind, 'init': init, 'cache': cache, 'cd': cache and rng.random() < 0.15,
+            'ops': ops, 'level': 'poset', 'okind': okind, 'sl': True}
+
+
 def generate(rng, tier):
     cases = []
     if tier == 'thorough':
         cases += list(exhaustive_cases())
-        n_rand, max_ops = 20000, 30
+        n_rand, max_ops, n_sl = 20000, 30, 12000
     else:
-        cases += sample_exhaustive(rng, 600)
-        n_rand, max_ops = 2600, 12
+        cases += sample_exhaustive(rng, 400)
+        n_rand, max_ops, n_sl = 1800, 12, 600
     for _ in range(n_rand):
         cases.append(random_case(rng, max_ops))
+    for _ in range(n_sl):
+        cases.append(sl_case(rng, max_ops))
     return cases
 
 
 # ------------------------------------------------------------------ evidence
 def nontrivial(case):
+    if case.get('sl'):
+        from harness.props import c11
+        return c11.nontrivial(case)
     return PL.history_nontrivial(case['ops'])
 
 
 def stats(case):
+    if case.get('sl'):
+        from harness.props import c11
+        d = c11.stats(case)
+        d['class'] = {'U': 'UpperSemiLattice', 'L': 'LowerSemiLattice', 'B': 'Lattice'}[case['kind']]
+        return d
     ops = case['ops']
-    return {'order': case.get('kind', ''), 'carriers': len(case['matrix']), 'init': len(case['init']),
+    return {'class': 'POSet', 'order': case.get('kind', ''), 'carriers': len(case['matrix']), 'init': len(case['init']),
             'cache': case['cache'], 'children_dict': bool(case.get('cd')),
             'ops': min(len(ops), 31) // 4 * 4,
             'mutations': sum(1 for o in ops if PL.is_mutation(o)),
@@ -275,6 +357,9 @@ def _has_present_add(case):
 
 
 def shrink(case):
+    if case.get('sl'):
+        from harness.props import c11
+        return c11.shrink(case)
     out = [c for c in PL.shrink_history(case) if PL.history_valid(c['init'], c['ops'], len(c['matrix']))]
     if case.get('cd'):
         c = dict(case)
